@@ -45,6 +45,7 @@ const (
 	ETime      = 14 // dt(ms) of virtual time since the previous record
 	EAttempt   = 20 // slot rid pod nc pin erdma accepted reason c4 c6
 	EDispose   = 21 // slot n ret whole n4 m4.. n6 m6..
+	ERawQueues = 24 // slot n a4.. n a6.. n d4.. n d6.. : the raw request queues at the end of a block with a staged overlap
 	ERelease   = 22 // slot pod eni a4 a6 handled uidPassed uidAtAdd   (uid generation numbers, -1 = none)
 	ERestart   = 50 // the daemon crashed and started again; the preload records (12 slot 0 ..) of the new pool follow
 	EMark      = 99
@@ -896,6 +897,22 @@ func (w *World) mark() {
 			}
 		}
 		w.In = append(w.In, r)
+	}
+	// a block with a staged overlap (metadata read held open while a call's answer arrives): which of the factory worker and the
+	// workers woken by the sync got the pool's lock first is a race; the raw queues (finished requests included) at the end of
+	// the block tell the replay which order it was
+	for _, r := range blk {
+		if r[0] == RMetaSync && len(r) > 2 && r[2] == 1 && r[1] >= 1 && r[1] <= len(w.locals) {
+			snap := w.locals[r[1]-1].VerifSnapshot()
+			rec := []int{ERawQueues, r[1]}
+			for _, q := range [][]*eni.LocalIPRequest{snap.Alloc4, snap.Alloc6, snap.Dang4, snap.Dang6} {
+				rec = append(rec, len(q))
+				for _, x := range q {
+					rec = append(rec, w.rids[x])
+				}
+			}
+			w.In = append(w.In, rec)
+		}
 	}
 	w.In = append(w.In, []int{EMark})
 	w.Out = append(w.Out, w.snapshot()...)
